@@ -139,7 +139,21 @@ bool Component::ComponentImpl::performTestWithHistory(History &history, const Co
         history.push_back(h);
         bool result = importedComponent->pFunc()->performTestWithHistory(history, importedComponent, type);
         history.pop_back();
-        return result;
+        if (!result) {
+            return false;
+        }
+
+        // The components encapsulated by the import placeholder itself must
+        // pass the test too.
+
+        for (size_t i = 0; i < mComponent->componentCount(); ++i) {
+            auto currentComponent = mComponent->component(i);
+            if (!currentComponent->pFunc()->performTestWithHistory(history, currentComponent, type)) {
+                return false;
+            }
+        }
+
+        return true;
     }
 
     auto model = std::dynamic_pointer_cast<libcellml::Model>(mComponent->parent());
